@@ -483,7 +483,9 @@ def binop(it, op, a, b):
         return mk_int((-A) / (-B)) if isinstance(op, ast.FloorDiv) else mk_int(-((-A) % (-B)))
     if isinstance(op, ast.Pow):
         if isinstance(a, int) and a == 2 and getattr(it, "pow_uf", False):
-            return pow2(it, b)
+            # exponent provably small: exact case split; otherwise 2**e as an uninterpreted function
+            if it.solver().check(z3.Or(B < 0, B > 16)) != z3.unsat:
+                return pow2(it, b)
         if isinstance(a, int) and isinstance(b, SInt):
             # small non-negative exponent: case split (forks), exact
             for k in range(0, 65):
